@@ -10,7 +10,7 @@ from .. import gen, model
 
 PROP = "C01"
 LEVEL = "exploration"
-MONITORS = ["id_equals_model", "golden", "injective", "dirname", "cross_session"]
+MONITORS = ["id_equals_model", "golden", "injective", "dirname", "cross_session", "edited_handle_id"]
 DISTINCT = "nontrivial"
 RULE = (
     "State points = every nested JSON value over a small alphabet (null,bool,0,1,1.0,'1','é'; keys a,b; "
@@ -221,6 +221,24 @@ def check_sp(ctx, project, sp, rng, do_init):
                     "file-roundtrip-changes-value", "state point file does not parse back to the value",
                     {"sp": sp, "on_disk": on_disk},
                 )
+        # the id stays the hash of the value through in-place edits between Python-equal JSON values
+        if _state["ninit"] % 12 == 0:
+            for v in (1, 1.0, True, "1", [1, 1.0], [True, 1.0]):
+                ctx.monitor("edited_handle_id")
+                try:
+                    job.sp["zz_edit"] = v
+                except Exception as e:  # noqa
+                    ctx.violation("edit-raises", f"state point edit raised {type(e).__name__}: {e}", {"sp": sp, "value": v})
+                    break
+                now = model.plain(job.statepoint())
+                want = model.model_id(now)
+                if job.id != want or not os.path.isdir(os.path.join(project.workspace, want)) \
+                        or not model.typed_eq(now.get("zz_edit"), v):
+                    ctx.violation("id-not-hash-of-edited-statepoint",
+                                  "after an in-place edit job.id is not the canonical hash of job.statepoint()",
+                                  {"sp": now, "edit": v, "id": job.id, "expected": want})
+                    break
+        _state["ninit"] += 1
         job.remove()
 
 
